@@ -371,6 +371,7 @@ func runExitPoll(c *core.Ctx) {
 	// the poll clause
 	var clause *ast.CommClause
 	var sel *ast.SelectStmt
+	var allClauses []*ast.CommClause
 	ast.Inspect(fn.Body(), func(n ast.Node) bool {
 		if _, isLit := n.(*ast.FuncLit); isLit {
 			return false
@@ -384,6 +385,7 @@ func runExitPoll(c *core.Ctx) {
 			if es, ok := cc.Comm.(*ast.ExprStmt); ok {
 				if u, ok := an.Unparen(es.X).(*ast.UnaryExpr); ok && u.Op == token.ARROW && an.SelectedField(info, u.X) == reqExit {
 					clause, sel = cc, s
+					allClauses = append(allClauses, cc)
 				}
 			}
 		}
@@ -451,6 +453,43 @@ func runExitPoll(c *core.Ctx) {
 		_ = p
 		// every cycle passes the select head block: check by cutting the head's outgoing edges
 		cyc := g.Search(an.Query{From: b, Target: func(a ast.Node) bool { return a == b }, Edges: func(from *cfg.Block, i int) bool { return int(from.Index) != head }})
+		// the poll may end Run only once the outcome of the section that just ran was dispatched: from Body there is no
+		// path into the poll clause that does not evaluate a switch on the named error result
+		errVar := namedResult(fn, 0)
+		var tag ast.Node
+		ast.Inspect(fn.Body(), func(m ast.Node) bool {
+			if s, ok := m.(*ast.SwitchStmt); ok && s.Tag != nil && errVar != nil && an.ObjOf(info, s.Tag) == errVar && tag == nil {
+				tag = s.Tag
+			}
+			return true
+		})
+		if tag == nil {
+			c.Lost("Run:error-switch", "switch on the named error result not found in Run")
+		} else {
+			first := func(list []ast.Stmt) ast.Node {
+				if len(list) == 0 {
+					return nil
+				}
+				return list[0]
+			}
+			found := false
+			for _, cl := range allClauses {
+				target := first(cl.Body)
+				if target == nil {
+					continue
+				}
+				pt, ok2 := g.PointOf(target)
+				q := g.Search(an.Query{From: b, Target: func(a ast.Node) bool {
+					pa, ok1 := g.PointOf(a)
+					return ok1 && ok2 && pa.Block == pt.Block
+				}, Avoid: func(a ast.Node) bool { return a == tag }})
+				if q.Found {
+					found = true
+				}
+			}
+			c.Check(!found, "Run:poll-after-outcome-dispatch", sel.Pos(), "the exit poll is reached from Body only through the switch on err",
+				"an exit request can end Run before the outcome of the section that just ran was dispatched: a failure is reported as a clean stop and an aborted section is never rolled back")
+		}
 		c.Check(!cyc.Found, "Run:poll-every-iteration", sel.Pos(), "every cycle from Body back to Body evaluates the poll", "there is a cycle from Body to Body that does not evaluate the requestExit poll")
 	}
 }
@@ -682,6 +721,46 @@ func runNestedCount(c *core.Ctx) {
 		})
 		return true
 	})
+	// both loops run on every path of Close, the stop requests first
+	cg := e.Graph(closeM)
+	var stopX, recvX ast.Node
+	ast.Inspect(closeM.Body(), func(m ast.Node) bool {
+		rs, ok := m.(*ast.RangeStmt)
+		if !ok || an.SelectedField(ci, rs.X) != ctxs {
+			return true
+		}
+		isStop, isRecv := false, false
+		ast.Inspect(rs.Body, func(k ast.Node) bool {
+			switch x := k.(type) {
+			case *ast.SelectorExpr:
+				if sel, ok := ci.Selections[x]; ok && sel.Kind() == types.MethodVal && an.IsMethodNamed(sel.Obj().(*types.Func), an.PkgDistsys, "MPCalContext", "Stop") {
+					isStop = true
+				}
+			case *ast.UnaryExpr:
+				if x.Op == token.ARROW && an.SelectedField(ci, x.X) == errCh {
+					isRecv = true
+				}
+			}
+			return true
+		})
+		if isStop && stopX == nil {
+			stopX = rs.X
+		}
+		if isRecv && recvX == nil {
+			recvX = rs.X
+		}
+		return true
+	})
+	if stopX != nil && recvX != nil {
+		okS, _ := cg.MustPass(nil, func(a ast.Node) bool { return a == stopX }, nil)
+		okR, _ := cg.MustPass(nil, func(a ast.Node) bool { return a == recvX }, nil)
+		c.Check(okS, "nestedArchetype.Close:stops-unconditionally", stopX.Pos(), "every path of Close runs the loop that requests Stop for each nested context",
+			"Close can skip the loop that stops the nested contexts: a nested archetype that is still running is never stopped and Close waits for its report forever")
+		c.Check(okR, "nestedArchetype.Close:collects-unconditionally", recvX.Pos(), "every path of Close collects the exit reports",
+			"Close can return without collecting the exit reports of the nested contexts: it returns while nested archetypes still run")
+		c.Check(cg.Dominates(stopX, recvX), "nestedArchetype.Close:stop-before-collect", recvX.Pos(), "the stop requests precede the collection of reports",
+			"Close waits for the exit reports before requesting the nested contexts to stop: it would wait forever")
+	}
 	c.Check(stops, "nestedArchetype.Close:stops-every-context", closeM.Pos(), "Stop is requested for every nested context", "Close does not stop every nested context")
 	c.Check(recvs, "nestedArchetype.Close:collects-every-report", closeM.Pos(), "one report is received per nested context", "Close does not receive exactly one exit report per nested context")
 }
